@@ -118,6 +118,9 @@ fn raw_contract<const RUNS: usize, const EXCL: bool>() {
 //# id=K.callbacks.raw.exclusive.runs3 props=C13,C04 strength=bounded shape="3 consecutive runs of an exclusive system" tier=quick fns=RawCallbackSystem::run_with_cleanup,run_initialized_system
 #[kani::proof] #[kani::unwind(6)] fn k_callbacks_raw_exclusive_runs3() { raw_contract::<3, true>(); }
 
+//# id=K.callbacks.raw.plain.runs5 props=C13,C04 strength=bounded shape="5 consecutive runs of a non-exclusive system" tier=thorough fns=RawCallbackSystem::run_with_cleanup,run_initialized_system
+#[kani::proof] #[kani::unwind(8)] fn k_callbacks_raw_plain_runs5() { raw_contract::<5, false>(); }
+
 fn boxed_contract<const RUNS: usize, const EXCL: bool>() {
     let mut world = World::new();
     world.init_resource::<Trace>();
